@@ -801,6 +801,16 @@ func (vc *VC) evalCall(x *SCall, env *Env) TV {
 		s := vc.evalSpec(x.Args[0], env)
 		i := vc.materialize(vc.evalSpec(x.Args[1], env), intTy)
 		return TV{T: vc.elemAt(vc.sliceArr(s.T), vc.sliceOff(s.T), vc.toIdx(i)), Ty: goTy(types.Typ[types.UnsafePointer])}
+	case "cell":
+		// cell(s, j): the element of s's backing array at absolute index j (independent of s's offset,
+		// so that facts stated this way survive re-slicing)
+		sv := vc.evalSpec(x.Args[0], env)
+		sl, ok := sv.Ty.Go.Underlying().(*types.Slice)
+		if !ok {
+			specFail("cell(s, j): s must be a slice")
+		}
+		j := vc.materialize(vc.evalSpec(x.Args[1], env), intTy)
+		return TV{T: vc.load(env.state, vc.elem(vc.sliceArr(sv.T), vc.toIdx(j)), sl.Elem()), Ty: goTy(sl.Elem())}
 	case "addrof":
 		ref, t := vc.lvalue(x.Args[0], env)
 		return TV{T: ref, Ty: goTy(types.NewPointer(t))}
